@@ -1,6 +1,6 @@
 """M-STACK — the broker's per-connection task end to end (server::broker::remote over in-memory
-duplex streams against a real Router thread): C20 here; check_admission (C19) and check_wills (C16)
-are called from comp_router.
+duplex streams against a real Router thread): C20 here; check_admission (C19), check_wills (C16)
+and check_isolation (C14) are called from comp_router.
 
 P: Props/C20.v (Stack/Proofs.v).  C: the real task / the real Protocol::write vs the extracted
 Stack.Model (admission, epilogue, to_packet, has_arm).  M: the properties themselves evaluated on
@@ -1066,6 +1066,125 @@ def check_big_one(s):
     return bad, harness
 
 
+# ------------------------------------------------------------------ ISOLATION (C14, link-layer half)
+
+# how a connection is thrown out: (listener version, item(s) sent, how RemoteLink::start ends = input of Stack.Model.classify)
+OFFENCES = {
+    "v5-empty-topic": ("v5", "raw;300400000041", "link"),                                     # PUBLISH, empty topic, no alias
+    "v5-unknown-alias": ("v5", "publish;t=-;p=%s;q=0;alias=9" % hx("X"), "link"),
+    "v5-alias-too-big": ("v5", "publish;t=%s;p=%s;q=0;alias=4097" % (hx("x/t"), hx("X")), "link"),
+    "v5-publish-subid": ("v5", "publish;t=%s;p=%s;q=1;pkid=3;sid=4" % (hx("x/t"), hx("X")), "link"),
+    "v5-subscribe-subid0": ("v5", "subscribe;pkid=2;f=%s;q=0;sid=0" % hx("x/#"), "link"),
+    "v4-empty-topic": ("v4", "raw;3003000041", "link"),
+    # controls: closes without a Disconnect notification, and ends the connection chose itself
+    "v4-unsolicited-puback": ("v4", "puback;pkid=77", "link"),
+    "v5-unsolicited-pubrec": ("v5", "pubrec;pkid=77", "link"),
+    "v5-client-disconnect": ("v5", "disconnect", "link"),
+    "v4-eof": ("v4", None, "nio:aborted"),
+}
+ISO_MODES = ["after", "burst", "before"]
+
+
+def iso_scenario(i, m):
+    """an offender is thrown out by the router; a well-behaved client with another client id
+    connects right after (so it is given the connection id the offender vacated) / in the same
+    instant, subscribes and publishes; it must not notice anything"""
+    s = Scn("iso", "iso-%d" % i, prop="C14", **m)
+    ov, item, _ = OFFENCES[m["off"]]
+    s.add("TAP")
+    s.add("LISTEN L4 v4").add("LISTEN L5 v5")
+    s.add("OPEN off " + ("L4" if ov == "v4" else "L5"))
+    s.add("SEND off connect;id=%s;ka=60;clean=1" % hx("offender"))
+    s.add("RECV off 1 %d" % T, "oconn")
+    s.add("OPEN good " + ("L4" if m["gv"] == "v4" else "L5"))
+    good = "connect;id=%s;ka=60;clean=1 subscribe;pkid=1;f=%s;q=0 publish;t=%s;p=%s;q=0" % (hx("good"), hx("iso/good"), hx("iso/good"), hx("HELLO"))
+    if item is None:
+        s.add("EOF off")
+        s.add("SEND good " + good)
+    elif m["mode"] == "after":
+        s.add("SEND off " + item)
+        s.add("SEND good " + good)
+    elif m["mode"] == "burst":
+        s.add("SENDM off %s | good %s" % (item, good))
+    else:
+        s.add("SENDM good %s | off %s" % (good, item))
+    s.add("RECV good 3 %d" % T, "good1")
+    s.add("RECV off 2 %d" % T, "oend")
+    s.add("JOIN off %d" % T, "ojoin")
+    s.add("SEND good publish;t=%s;p=%s;q=0 pingreq" % (hx("iso/good"), hx("AGAIN")))
+    s.add("RECV good 2 %d" % T, "good2")
+    s.add("EVENTS", "events")
+    return s.end()
+
+
+def gen_iso(ctx, rng):
+    ms = []
+    reps = 10 if ctx.thorough() else 2
+    for off in OFFENCES:
+        for mode in (ISO_MODES if OFFENCES[off][1] is not None else ["after"]):
+            for gv in ("v4", "v5"):
+                for r in range(reps if mode == "after" else max(1, reps // 2)):
+                    ms.append(dict(off=off, mode=mode, gv=gv, rep=r))
+    return [iso_scenario(i, m) for i, m in enumerate(ms)]
+
+
+def check_isolation(ctx, scns=None):
+    """C14, last sentence, at the link layer.  Returns [(text, replay_text)] like check_admission:
+    a harmed bystander is a property violation; an Event::Disconnect sent for a connection the
+    router itself had dropped (Stack.Model.epilogue says none is sent) without visible harm is
+    'correspondence-only:'."""
+    iexe, iout = impl_exe()
+    mexe, mout = model_exe()
+    if not iexe or not mexe:
+        return [("correspondence-only: stack harness does not build: " + (iout or mout)[-1500:], "# harness build failed\n")]
+    rng = lib.Rng(ctx.seed ^ 0xC14)
+    if scns is None:
+        scns = corpus_scenarios("iso") + gen_iso(ctx, rng)
+        run_scenarios(iexe, scns)
+    model = model_answers(mexe, ["EPI %s timeout" % OFFENCES[s.meta["off"]][2] for s in scns])
+    viol, corr, hist, reused = [], [], {}, 0
+    for s, md in zip(scns, model):
+        m = s.meta
+        if s.out is None:
+            corr.append(("correspondence-only: the stack driver did not answer scenario %s" % s.name, s.replay_text("driver gave no output")))
+            continue
+        model_d = 1 if " d=1 " in md + " " else 0
+        ev = s.get("events").split()[1:]
+        n_disc = sum(1 for e in ev if e.endswith(":Disconnect"))
+        ids = [e.split(":")[0] for e in ev if e.endswith(":DeviceData")]
+        slot_reused = len(set(ids)) == 1 and len(ids) >= 2
+        reused += 1 if slot_reused else 0
+        g1 = parse_recv(s.get("good1"))
+        g2 = parse_recv(s.get("good2"))
+        k1 = [k for k, _ in g1]
+        harm = []
+        if k1 != ["connack", "suback", "publish"] or g1[0][1].get("code") != "Success" or unhx(g1[2][1].get("p", "-")) != b"HELLO":
+            harm.append("after CONNECT+SUBSCRIBE+PUBLISH the bystander got %s" % (s.get("good1")[5:160] or "nothing"))
+        elif sorted(k for k, _ in g2) != ["pingresp", "publish"]:
+            harm.append("later PUBLISH+PINGREQ of the bystander got %s" % (s.get("good2")[5:160] or "nothing"))
+        key = "%s/%s:%s" % (m["off"], m["mode"], "reused" if slot_reused else "fresh")
+        hist[key] = hist.get(key, 0) + 1
+        late = n_disc > model_d
+        oconn = parse_recv(s.get("oconn"))
+        ran = bool(oconn) and oconn[0][0] == "connack" and s.get("ojoin") == "JOIN done" and "panics=- stuck=-" in s.get("END")
+        if harm:
+            viol.append(("isolation: offender (%s) thrown out, %s bystander connecting %s: %s%s [events: %s]" % (
+                m["off"], m["gv"], {"after": "right after", "burst": "in the same instant", "before": "just before"}[m["mode"]], "; ".join(harm),
+                "; the offender's task sent Event::Disconnect for the connection id the router had already freed%s" % (" and given to the bystander" if slot_reused else "") if late else "",
+                " ".join(ev)), s.replay_text("a client that did nothing wrong lost its connection")))
+        elif late or n_disc != model_d:
+            corr.append(("correspondence-only: isolation scenario %s (%s): the tasks sent %d Event::Disconnect, Stack.Model.epilogue says %d [events: %s]" % (
+                s.name, m["off"], n_disc, model_d, " ".join(ev)), s.replay_text("Event::Disconnect sent where the model sends none (or vice versa); no bystander was harmed in this run")))
+        elif not ran:
+            corr.append(("correspondence-only: isolation scenario %s did not run as designed: %s %s %s" % (s.name, s.get("oconn"), s.get("ojoin"), s.get("END")),
+                         s.replay_text("scenario did not run as designed")))
+    ctx.cov["stack_isolation"] = {"scenarios": len(scns), "bystander_got_offenders_connection_id": reused,
+                                  "rule": "each scenario: offender dropped by the router (%s), a bystander with another client id connects right after / in the same write burst / just before, subscribes, publishes, "
+                                          "publishes again and pings; every event the tasks send to the router is logged (TAP). non-trivial = the bystander was given the offender's connection id" % ", ".join(OFFENCES),
+                                  "distinct_nontrivial": reused, "histogram": hist, "property_violations": len(viol), "correspondence_divergences": len(corr)}
+    return viol + corr
+
+
 WRITE_VARIANTS = [(v, k, p, x) for v in ("v4", "v5") for k in KINDS for p in (0, 1) for x in (0, 1)]
 
 
@@ -1296,6 +1415,8 @@ def relabel(s):
             m = dict(s.meta)
             m["props"] = tuple(m.get("props", ()))
             t = cross_scenario(0, {k: m[k] for k in ("pv", "q", "props", "subid", "psize", "cdlen", "tlen") if k in m})
+        elif s.group == "iso":
+            t = iso_scenario(0, {k: s.meta[k] for k in ("off", "mode", "gv", "rep")})
         elif s.group == "big":
             t = big_scenario(0, {k: s.meta[k] for k in ("kind", "n", "sv", "pv")})
         elif s.group == "alias":
@@ -1356,6 +1477,8 @@ def replay(ctx, path):
         elif s.group == "alias":
             bad, h = check_alias_one(s)
             msgs = bad + h
+        elif s.group == "iso":
+            msgs = [t for t, _ in check_isolation(C(), [s])]
         elif s.group == "wills":
             msgs = [t for t, _ in check_wills(C(), [s])]
         elif s.group == "admission":
